@@ -28,7 +28,7 @@ def guarded(f):
         return f()
     except AssertionError:
         return 'error:assert'
-    except (ValueError, TypeError, IndexError, KeyError) as e:
+    except (ValueError, TypeError, IndexError, KeyError, RuntimeError, np.linalg.LinAlgError) as e:
         return 'error:' + type(e).__name__
 
 
